@@ -316,7 +316,7 @@ def body(ctx):
     pairs = [(i, j) for i in range(len(classes)) for j in range(len(classes)) if i != j]
     if ctx.thorough:
         rnd.shuffle(pairs)
-        chosen = pairs[:400]
+        chosen = pairs[:30]  # x 4 rep classes x ~280 operation forms x 6 configurations: about an hour
         repsel = ["ii", "dd", "u8", "id"]
     else:
         rnd.shuffle(pairs)
@@ -341,8 +341,8 @@ def body(ctx):
             ea, ma = member(i)
             eb, mb = member(j)
             work.append((rk, ea, classes[i].dim, eb, classes[j].dim))
-    near = near_miss_pairs(units, rnd, 40 if ctx.thorough else 10)
-    ctx.require(len(near) >= (30 if ctx.thorough else 8), "only %d near-miss pairs" % len(near))
+    near = near_miss_pairs(units, rnd, 24 if ctx.thorough else 10)
+    ctx.require(len(near) >= (18 if ctx.thorough else 8), "only %d near-miss pairs" % len(near))
     for k, ((ea, da), (eb, db)) in enumerate(near):
         # one rep class per near-miss pair in the quick tier (rotating), all of them in the thorough tier
         for rk in (repsel if ctx.thorough else [repsel[k % len(repsel)]]):
